@@ -24,8 +24,27 @@ type PAlt struct{ Parts []Path }
 
 const ExNS = "http://example.org/"
 
-func predName(i int) string { return fmt.Sprintf("ex.p%d", i) }
-func PredIRI(i int) string  { return fmt.Sprintf("%sp%d", ExNS, i) }
+// predLocal: the local name of predicate i. Odd predicates carry an underscore (legal in the
+// path grammar and in placeholders), even ones do not, so that every family exercises both.
+func predLocal(i int) string {
+	if i%2 == 1 {
+		return fmt.Sprintf("p_%d", i)
+	}
+	return fmt.Sprintf("p%d", i)
+}
+func predName(i int) string { return "ex." + predLocal(i) }
+func PredIRI(i int) string  { return ExNS + predLocal(i) }
+
+var plainPredRe = regexp.MustCompile(`ex\.p(\d+)`)
+
+// FixPreds rewrites ex.pN in a hand-written text (a message) to the name predicate N really has.
+func FixPreds(text string) string {
+	return plainPredRe.ReplaceAllStringFunc(text, func(m string) string {
+		n := 0
+		fmt.Sscan(m[len("ex.p"):], &n)
+		return predName(n)
+	})
+}
 
 func (p PProp) pathString(bool) string {
 	if p.Inverse {
@@ -117,6 +136,8 @@ func Describe(f Formula) string {
 		return fmt.Sprintf("rego(%q)", x.Code)
 	case Not:
 		return "not(" + Describe(x.F) + ")"
+	case PC:
+		return "pc(" + descAll(x.Fs) + ")"
 	case And:
 		return "and(" + descAll(x.Fs) + ")"
 	case Or:
@@ -160,35 +181,30 @@ func yamlScalar(v ast.Value) string {
 // bodyYAML renders a formula as the body of a validation / nested validation.
 func bodyYAML(f Formula, ind string) string {
 	switch x := f.(type) {
-	case Atom:
-		var arg string
-		switch x.Kind {
-		case "pattern":
-			arg = fmt.Sprintf("%q", x.Pattern)
-		case "in", "containsAll", "containsSome":
-			var p []string
-			for _, v := range x.Values {
-				p = append(p, yamlScalar(v))
+	case Atom, Nested, Quant:
+		return bodyYAML(PC{[]Formula{x}}, ind)
+	case PC:
+		// group the constraints by property, in order of first appearance
+		var keys []string
+		lines := map[string]string{}
+		for _, k := range x.Fs {
+			key, l := constraintYAML(k, ind+"    ")
+			if _, seen := lines[key]; !seen {
+				keys = append(keys, key)
 			}
-			arg = "[" + strings.Join(p, ", ") + "]"
-		case "datatype":
-			arg = "xsd." + x.Type
-		case "lessThanProperty", "lessThanOrEqualsToProperty", "equalsToProperty", "disjointWithProperty":
-			arg = fmt.Sprintf("%q", PathString(x.Other))
-		case "uniqueValues":
-			arg = "true"
-		default:
-			arg = fmt.Sprint(x.N)
+			lines[key] += l
 		}
-		return fmt.Sprintf("%spropertyConstraints:\n%s  %q:\n%s    %s: %s\n", ind, ind, PathString(x.Path), ind, x.Kind, arg)
-	case Nested:
-		return fmt.Sprintf("%spropertyConstraints:\n%s  %q:\n%s    nested:\n%s", ind, ind, PathString(x.Path), ind, bodyYAML(x.F, ind+"      "))
-	case Quant:
-		k := "atMost"
-		if x.Least {
-			k = "atLeast"
+		out := ind + "propertyConstraints:\n"
+		for _, key := range keys {
+			out += fmt.Sprintf("%s  %q:\n%s", ind, key, lines[key])
 		}
-		return fmt.Sprintf("%spropertyConstraints:\n%s  %q:\n%s    %s:\n%s      count: %d\n%s      validation:\n%s", ind, ind, PathString(x.Path), ind, k, ind, x.N, ind, bodyYAML(x.F, ind+"        "))
+		return out
+	case Rego:
+		out := ind + "rego: |\n"
+		for _, l := range strings.Split(x.Code, "\n") {
+			out += ind + "  " + l + "\n"
+		}
+		return out
 	case Not:
 		return fmt.Sprintf("%snot:\n%s", ind, bodyYAML(x.F, ind+"  "))
 	case And:
@@ -215,10 +231,52 @@ func listYAML(key string, fs []Formula, ind string) string {
 	return s
 }
 
+// constraintYAML renders one constraint of a property: the property's path and the lines that go
+// below it.
+func constraintYAML(f Formula, ind string) (string, string) {
+	switch x := f.(type) {
+	case Atom:
+		var arg string
+		switch x.Kind {
+		case "pattern":
+			arg = fmt.Sprintf("%q", x.Pattern)
+		case "in", "containsAll", "containsSome":
+			var p []string
+			for _, v := range x.Values {
+				p = append(p, yamlScalar(v))
+			}
+			arg = "[" + strings.Join(p, ", ") + "]"
+		case "datatype":
+			arg = "xsd." + x.Type
+		case "lessThanProperty", "lessThanOrEqualsToProperty", "equalsToProperty", "disjointWithProperty":
+			arg = fmt.Sprintf("%q", PathString(x.Other))
+		case "uniqueValues":
+			arg = "true"
+		default:
+			arg = fmt.Sprint(x.N)
+		}
+		return PathString(x.Path), fmt.Sprintf("%s%s: %s\n", ind, x.Kind, arg)
+	case Nested:
+		return PathString(x.Path), fmt.Sprintf("%snested:\n%s", ind, bodyYAML(x.F, ind+"  "))
+	case Quant:
+		k := "atMost"
+		if x.Least {
+			k = "atLeast"
+		}
+		return PathString(x.Path), fmt.Sprintf("%s%s:\n%s  count: %d\n%s  validation:\n%s", ind, k, ind, x.N, ind, bodyYAML(x.F, ind+"    "))
+	}
+	panic("constraintYAML: not a property constraint")
+}
+
+
+// PC is one propertyConstraints block holding several constraints (of one or several properties):
+// their implicit conjunction, spelled the way profiles usually are.
+type PC struct{ Fs []Formula }
+
 // Validation is one named validation of a program.
 type Validation struct {
 	Name    string
-	Level   string // violation | warning | info
+	Level   string // violation | warning | info; several levels joined by "+" when the name is listed under each of them
 	Class   int    // index into Scope.Classes
 	F       Formula
 	Message string
@@ -250,7 +308,7 @@ func (p Program) ProfileYAML() string {
 	for _, lvl := range []string{"violation", "warning", "info"} {
 		var names []string
 		for _, v := range p.Validations {
-			if v.Level == lvl {
+			if listedUnder(v, lvl) {
 				names = append(names, v.Name)
 			}
 		}
@@ -613,6 +671,10 @@ func (r *Ref) Holds(f Formula, i int) (*smt.Term, *smt.Term) {
 	case Not:
 		h, s := r.Holds(x.F, i)
 		return smt.Not(h), s
+	case Rego:
+		return smt.True, smt.False // embedded code: the documentation does not determine its outcome
+	case PC:
+		return r.Holds(And{x.Fs}, i)
 	case And:
 		h, s := smt.True, smt.True
 		for _, k := range x.Fs {
@@ -682,8 +744,33 @@ func yamlName(n string) string {
 			simple = false
 		}
 	}
+	// plain scalars that YAML would read as something else than this string are quoted too
+	if simple && !(n[0] >= 'a' && n[0] <= 'z' || n[0] >= 'A' && n[0] <= 'Z') {
+		simple = false
+	}
+	switch strings.ToLower(n) {
+	case "true", "false", "null", "yes", "no", "on", "off", "y", "n":
+		simple = false
+	}
 	if simple {
 		return n
 	}
 	return "\"" + strings.NewReplacer("\\", "\\\\", "\"", "\\\"").Replace(n) + "\""
+}
+
+// LevelsOf lists the levels a validation is listed under ("" = defined but not listed).
+func LevelsOf(v Validation) []string {
+	if v.Level == "" {
+		return []string{""}
+	}
+	return strings.Split(v.Level, "+")
+}
+
+func listedUnder(v Validation, level string) bool {
+	for _, l := range LevelsOf(v) {
+		if l == level {
+			return true
+		}
+	}
+	return false
 }
